@@ -47,7 +47,7 @@ def mutants(prog):
         ("index_to_cube axes", G, "Grid.index_to_cube", "axes=Axes.GRID", "axes=Axes.CUBE", "T1.apply"),
         ("cube_to_world flag", G, "Grid.cube_to_world", "Axes.from_align_corners(align_corners)", "Axes.from_align_corners(not align_corners)", "T1.apply"),
         ("apply vectors", G, "Grid.apply_transform", "homogeneous_transform(matrix, input)", "homogeneous_transform(matrix, input, vectors=True)", "T1.apply"),
-        ("cube affine", "deepali.core.cube", "Cube.transform", "hmm(self.inverse_affine(), -self.center())", "hmm(self.inverse_affine(), self.center())", "T1.cube"),
+        ("cube affine", "deepali.core.cube", "Cube.transform", "hmm(cube.inverse_affine(), -cube.center())", "hmm(cube.inverse_affine(), cube.center())", "T1.cube"),
         ("hmm: affine*homogeneous t", "deepali.core.linalg", "homogeneous_matmul", "t = a[..., D:] + torch.bmm(a[..., :D], b[..., D:])", "t = torch.bmm(a[..., :D], b[..., D:])", "T1."),
         ("homogeneous_transform transpose", "deepali.core.linalg", "homogeneous_transform", "transform[:, :D, :D].transpose(1, 2)", "transform[:, :D, :D]", "T1."),
         ("origin: singleton axis treated as empty", G, "Grid.origin", "torch.where(size.gt(0), size.sub(1), size).div(2)", "torch.where(size.gt(1), size.sub(1), size).div(2)", "T1.itk-singleton"),
